@@ -53,9 +53,41 @@ theorem ks_cons_some {c : α} {k : Key} (h : kt c = some k) (cs : List α) :
 theorem ks_cons_none {c : α} (h : kt c = none) (cs : List α) :
     ks kt (c :: cs) = ks kt cs := by simp [ks, List.filterMap_cons, h]
 
+/-- uniqueness of the present (non-blank) keys; blank keys may repeat -/
+def SomeNodup (l : List Key) : Prop := (l.filter (·.isSome)).Nodup
+
+theorem SomeNodup.of_nodup {l : List Key} (h : l.Nodup) : SomeNodup l :=
+  h.sublist List.filter_sublist
+
+theorem SomeNodup.sublist {l₁ l₂ : List Key} (hs : l₁.Sublist l₂) (h : SomeNodup l₂) : SomeNodup l₁ :=
+  List.Nodup.sublist (hs.filter _) h
+
+theorem SomeNodup.tail {x : Key} {l : List Key} (h : SomeNodup (x :: l)) : SomeNodup l :=
+  h.sublist (List.sublist_cons_self x l)
+
+theorem SomeNodup.not_mem {s : Key} {l : List Key} (h : SomeNodup (s :: l)) (hs : s.isSome = true) :
+    s ∉ l := by
+  unfold SomeNodup at h
+  simp only [List.filter_cons, hs, if_true, List.nodup_cons] at h
+  intro hm
+  exact h.1 (List.mem_filter.mpr ⟨hm, hs⟩)
+
+theorem SomeNodup.append_left {a b : List Key} (h : SomeNodup (a ++ b)) : SomeNodup a :=
+  h.sublist (List.sublist_append_left a b)
+
+theorem SomeNodup.append_right {a b : List Key} (h : SomeNodup (a ++ b)) : SomeNodup b :=
+  h.sublist (List.sublist_append_right a b)
+
+theorem SomeNodup.disjoint {a b : List Key} (h : SomeNodup (a ++ b)) {s : Key} (hs : s.isSome = true)
+    (ha : s ∈ a) : s ∉ b := by
+  unfold SomeNodup at h
+  rw [List.filter_append, List.nodup_append] at h
+  intro hb
+  exact h.2.2 s (List.mem_filter.mpr ⟨ha, hs⟩) s (List.mem_filter.mpr ⟨hb, hs⟩) rfl
+
 /-- uniqueness of the position of a key -/
-theorem idx_unique {cs : List α} (hu : (ks kt cs).Nodup) {i j : Nat} (hi : i < cs.length) (hj : j < cs.length)
-    {s : Key} (h1 : kt cs[i] = some s) (h2 : kt cs[j] = some s) : i = j := by
+theorem idx_unique {cs : List α} (hu : SomeNodup (ks kt cs)) {i j : Nat} (hi : i < cs.length) (hj : j < cs.length)
+    {s : Key} (hs : s.isSome = true) (h1 : kt cs[i] = some s) (h2 : kt cs[j] = some s) : i = j := by
   induction cs generalizing i j with
   | nil => simp at hi
   | cons c cs ih =>
@@ -67,8 +99,7 @@ theorem idx_unique {cs : List α} (hu : (ks kt cs).Nodup) {i j : Nat} (hi : i < 
       | succ j =>
         simp at h1 h2
         rw [h1] at hu
-        simp only [List.nodup_cons] at hu
-        exfalso; apply hu.1
+        exfalso; apply hu.not_mem hs
         simp only [List.mem_filterMap]
         have hj' : j < cs.length := by simpa using hj
         exact ⟨cs[j], List.getElem_mem hj', h2⟩
@@ -77,17 +108,16 @@ theorem idx_unique {cs : List α} (hu : (ks kt cs).Nodup) {i j : Nat} (hi : i < 
       | zero =>
         simp at h1 h2
         rw [h2] at hu
-        simp only [List.nodup_cons] at hu
-        exfalso; apply hu.1
+        exfalso; apply hu.not_mem hs
         simp only [List.mem_filterMap]
         have hi' : i < cs.length := by simpa using hi
         exact ⟨cs[i], List.getElem_mem hi', h1⟩
       | succ j =>
         simp at h1 h2
-        have hu' : (ks kt cs).Nodup := by
+        have hu' : SomeNodup (ks kt cs) := by
           cases hc : kt c with
           | none => simpa [hc, ks] using hu
-          | some v => rw [hc] at hu; exact (List.nodup_cons.mp hu).2
+          | some v => rw [hc] at hu; exact hu.tail
         congr 1
         exact ih hu' (by simpa using hi) (by simpa using hj) h1 h2
 
@@ -120,8 +150,8 @@ theorem findIdx?_congr' {l : List β} {p q : β → Bool} (h : ∀ x ∈ l, p x 
     rw [ih (fun x hx => h x (List.mem_cons_of_mem _ hx))]
 
 /-- membership of an original index among the located source indices ⇔ its key is a source key -/
-theorem src_contains_iff {cs : List α} (hu : (ks kt cs).Nodup) {ss : List Key} (hss : ∀ s ∈ ss, s ∈ ks kt cs)
-    {p : α × Nat} (hp : p ∈ cs.zipIdx) :
+theorem src_contains_iff {cs : List α} (hu : SomeNodup (ks kt cs)) {ss : List Key} (hss : ∀ s ∈ ss, s ∈ ks kt cs)
+    (hsm : ∀ s ∈ ss, s.isSome = true) {p : α × Nat} (hp : p ∈ cs.zipIdx) :
     (ss.map (idx kt cs)).contains p.2 = isSrc kt ss p.1 := by
   rw [List.mem_zipIdx_iff_getElem?, List.getElem?_eq_some_iff] at hp
   obtain ⟨hlt, hget⟩ := hp
@@ -139,7 +169,7 @@ theorem src_contains_iff {cs : List α} (hu : (ks kt cs).Nodup) {ss : List Key} 
     · simp only [hmem, decide_true, decide_eq_true_eq]
       refine ⟨k, hmem, ?_⟩
       obtain ⟨h1, h2⟩ := idx_spec kt (hss k hmem)
-      exact idx_unique kt hu h1 hlt h2 (by rw [hget]; exact hk)
+      exact idx_unique kt hu h1 hlt (hsm k hmem) h2 (by rw [hget]; exact hk)
     · simp only [hmem, decide_false, decide_eq_false_iff_not]
       rintro ⟨s, hs, he⟩
       obtain ⟨h1, h2⟩ := idx_spec kt (hss s hs)
@@ -183,17 +213,18 @@ theorem ks_moved {cs : List α} {ss : List Key} (hss : ∀ s ∈ ss, s ∈ ks kt
 
 /-- the children that stay, untagged -/
 theorem moveNodes_rest {cs : List α} {ss : List Key}
-    (hu : (ks kt cs).Nodup) (hss : ∀ s ∈ ss, s ∈ ks kt cs) :
+    (hu : SomeNodup (ks kt cs)) (hss : ∀ s ∈ ss, s ∈ ks kt cs) (hsm : ∀ s ∈ ss, s.isSome = true) :
     cs.zipIdx.filter (fun p => !(ss.map (idx kt cs)).contains p.2)
       = cs.zipIdx.filter (fun p => !isSrc kt ss p.1) := by
-  apply List.filter_congr; intro p hp; rw [src_contains_iff kt hu hss hp]
+  apply List.filter_congr; intro p hp; rw [src_contains_iff kt hu hss hsm hp]
 
 /-- `move_nodes` before a target, on key sequences -/
 theorem moveNodes_keys {cs : List α} {ss : List Key} {t : Key}
-    (hu : (ks kt cs).Nodup) (hss : ∀ s ∈ ss, s ∈ ks kt cs) (ht : t ∈ ks kt cs) (hts : t ∉ ss) :
+    (hu : SomeNodup (ks kt cs)) (hss : ∀ s ∈ ss, s ∈ ks kt cs) (hsm : ∀ s ∈ ss, s.isSome = true)
+    (ht : t ∈ ks kt cs) (htm : t.isSome = true) (hts : t ∉ ss) :
     ks kt (moveNodes cs (ss.map (idx kt cs)) (some (idx kt cs t))) =
       insBefore (some t) ss ((ks kt cs).filter (fun k => !ss.contains k)) := by
-  have hrest := moveNodes_rest kt hu hss
+  have hrest := moveNodes_rest kt hu hss hsm
   obtain ⟨ht1, ht2⟩ := idx_spec kt ht
   -- position of the target among them
   have hpos : (cs.zipIdx.filter (fun p => !isSrc kt ss p.1)).findIdx? (fun p => p.2 == idx kt cs t)
@@ -210,7 +241,7 @@ theorem moveNodes_keys {cs : List α} {ss : List Key} {t : Key}
       simp [he, this]
     · have : kt p.1 ≠ some t := by
         intro hk; apply he
-        exact idx_unique kt hu hlt ht1 (by rw [hget]; exact hk) ht2
+        exact idx_unique kt hu hlt ht1 htm (by rw [hget]; exact hk) ht2
       have h1 : (p.2 == idx kt cs t) = false := by simpa using he
       have h2 : (kt p.1 == some t) = false := by simpa using this
       rw [h1, h2]
@@ -257,10 +288,10 @@ theorem moveNodes_keys {cs : List α} {ss : List Key} {t : Key}
 
 /-- `move_nodes` to the end, on key sequences -/
 theorem moveNodes_keys_end {cs : List α} {ss : List Key}
-    (hu : (ks kt cs).Nodup) (hss : ∀ s ∈ ss, s ∈ ks kt cs) :
+    (hu : SomeNodup (ks kt cs)) (hss : ∀ s ∈ ss, s ∈ ks kt cs) (hsm : ∀ s ∈ ss, s.isSome = true) :
     ks kt (moveNodes cs (ss.map (idx kt cs)) none) =
       insBefore none ss ((ks kt cs).filter (fun k => !ss.contains k)) := by
-  have hrest := moveNodes_rest kt hu hss
+  have hrest := moveNodes_rest kt hu hss hsm
   unfold moveNodes insBefore
   simp only [hrest, List.take_length, List.drop_length, List.map_nil, List.append_nil]
   have hu2 := untag_filter cs (fun c => !isSrc kt ss c)
